@@ -139,6 +139,15 @@ CHECKS = {
          "in-domain objects and unreadable output are violations.",
     note="floating-point closeness is decided by the projection with per-field tolerances derived from the table; wavefunction equivalence under arbitrary conventions is C01",
     technique="TLA+ format table (Formats.tla) exported by TLC drives tagged round trips; TLC validates the projected relation descriptors"),
+ "C15": dict(
+    category="exploration", design_ref="DESIGN.md section 6 C15",
+    text="Formats.tla states the idempotence of the round-trip normalisations (checked by TLC, e.g. SecondCycleIdentity of the POSCAR "
+         "grouping state machine) and the single documented exception (QCSchema provenance); for every C02 object configuration and "
+         "every corpus file converted to each of the 13 formats that accepts it, three save/reload cycles are executed and the triple "
+         "(second-generation object bit-identical to the first, third file byte-identical to the second, drifting attributes) is "
+         "validated by TLC against CyclesOK.",
+    note="bit-identity is judged on the deep public state; first-reload failures of corpus objects of another format are recorded as observations (domain of C02/C01)",
+    technique="TLA+ format model (Formats.tla, CyclesOK) + TLC validation of three-cycle save/reload executions"),
 }
 NOT_YET = "check not built yet in this round (planned, see DESIGN.md section 6)"
 
